@@ -1321,6 +1321,13 @@ impl Sessions {
         Ok((value, to_persist))
     }
 
+    /// `(live counter, boundary held in durable storage)` of the Global Group Encrypted
+    /// Data Message Counter - read-only projection for the verification harness.
+    #[cfg(feature = "verif")]
+    pub fn verif_group_ctr_state(&self) -> (u32, u32) {
+        (self.global_group_data_ctr, self.group_data_ctr_boundary)
+    }
+
     /// Get or create a TX group session for sending group data messages to
     /// `(fab_idx, group_id)`.
     ///
